@@ -35,9 +35,11 @@ def events_for(r):
     return base + list(range(10, 400, 7))
 
 
-def make_sample(res3, pne3, gains3=None, tag=''):
+def make_sample(res3, pne3, gains3=None, tag='', nozero=False):
     import FlowCal
     cols = [events_for(r) for r in res3]
+    if nozero:
+        cols = [[v for v in c if v != 0] for c in cols]          # saturated at the upper limit only
     n = max(len(c) for c in cols)
     cols = [c + [c[i % len(c)] for i in range(n - len(c))] for c in cols]
     events = [list(row) for row in zip(*cols)]
@@ -85,6 +87,10 @@ def cases(tier, seed):
     bs = [(j + ph) * step_b for j in range(nb + 1)] if seed else [round(j * step_b, 6) for j in range(nb + 1)]
     for m in ms:
         yield dict(kind='mef', m=m, bs=bs, rfi=('log' if int(round(m * 1000)) % 2 else 'lin'))
+    # (C2) standard curves returned by the library's own fit (not the closed form), on samples with and without events at zero
+    for table in range(3):
+        for nozero in (False, True):
+            yield dict(kind='mef-fitted', table=table, nozero=nozero)
     # (D) generic transform with NumPy functions
     for fn in ('log10', 'sqrt', 'double', 'log10p1', 'exp2'):
         yield dict(kind='transform', fn=fn)
@@ -99,7 +105,7 @@ def bits(x):
     return np.float64(x).tobytes().hex()
 
 
-def check_limits(res, what, sig, before, after, converted, one, D, gate_channels=None):
+def check_limits(res, what, sig, before, after, converted, one, D, gate_channels=None, allow_missing_low=False):
     """before/after: samples; converted: list of channel indices that were converted"""
     import FlowCal
     ok = True
@@ -118,6 +124,8 @@ def check_limits(res, what, sig, before, after, converted, one, D, gate_channels
             continue
         for side, lim in ((0, r0[0]), (1, r0[1])):
             rows = np.nonzero(b[:, ch] == lim)[0]
+            if len(rows) == 0 and allow_missing_low and side == 0:
+                continue
             if len(rows) == 0:
                 # the samples are built with events at both limits of the raw file; if an earlier conversion left limits
                 # that no event sits at any more, the limits did not follow the data
@@ -140,6 +148,20 @@ def check_limits(res, what, sig, before, after, converted, one, D, gate_channels
                 what, chs, int(m0.sum()), int(m1.sum()), k, b[k].tolist(), 'kept' if m0[k] else 'dropped', 'kept' if m1[k] else 'dropped'), one)
             ok = False
     return ok
+
+
+def check_empty(res, what, sig, before, after, convert, one):
+    """a sample without events (e.g. everything gated out) still gets its limits converted"""
+    e = before[:0]
+    try:
+        te = convert(e)
+    except Exception as ex:
+        res.violation(sig + ':empty-raises', '%s: converting the sample with its events removed raised %s: %s' % (what, type(ex).__name__, ex), one)
+        return
+    r1 = [bits(x) for r in te.range() for x in r]
+    r2 = [bits(x) for r in after.range() for x in r]
+    if te.shape[0] != 0 or r1 != r2:
+        res.violation(sig + ':empty-limits', '%s: the same conversion of the sample without events gives limits %r, with events %r' % (what, te.range(), after.range()), one)
 
 
 def curve(m, b):
@@ -168,6 +190,7 @@ def run_case(c):
                     what = 'to_rfi(log amplifier a0=%r a1=%r, resolutions %r, channels=%r)' % (c['a0'], c['a1'], c['res'], chans)
                     if check_limits(res, what, 'rfi-log', d, t, sub, one, 3):
                         res.ok('rfi-log', True)
+                    check_empty(res, what, 'rfi-log', d, t, lambda x: FlowCal.transform.to_rfi(x, chans), one)
             res.sample({'kind': k, 'a0': c['a0'], 'a1': c['a1'], 'resolutions': c['res'], 'channel_subsets': subsets(3)})
         elif k == 'rfi-lin':
             d = make_sample(c['res'], ['0,0'] * 3, c['gains'])
@@ -177,6 +200,7 @@ def run_case(c):
                 what = 'to_rfi(linear amplifier gains %r, resolutions %r, channels=%r)' % (c['gains'], c['res'], sub)
                 if check_limits(res, what, 'rfi-lin', d, t, sub, one, 3):
                     res.ok('rfi-lin', any(c['gains'][j] not in (None, 1) for j in sub))
+                check_empty(res, what, 'rfi-lin', d, t, lambda x: FlowCal.transform.to_rfi(x, sub), one)
             res.sample({'kind': k, 'gains': c['gains'], 'resolutions': c['res']})
         elif k == 'mef':
             m = c['m']
@@ -194,6 +218,30 @@ def run_case(c):
                     if check_limits(res, what, 'mef', d, t, sorted(set(sub)), one, 3):
                         res.ok('mef', True)
             res.sample({'kind': k, 'm': m, 'b_values': len(c['bs']), 'subsets': [[0], [1], [0, 1], [0, 1, 2], [2, 0]]})
+        elif k == 'mef-fitted':
+            tables = [([12.0, 55.0, 260.0, 1300.0, 6000.0], [0.0, 646.0, 4827.0, 47609.0, 273006.0]),
+                      ([3.0, 9.5, 30.0, 88.0, 270.0, 810.0], [120.0, 400.0, 1300.0, 4200.0, 14000.0, 45000.0]),
+                      ([1.5, 20.0, 300.0, 5000.0], [10.0, 150.0, 2500.0, 38000.0])]
+            rfi_t, mef_t = tables[c['table']]
+            sc = FlowCal.mef.fit_beads_autofluorescence(np.array(rfi_t), np.array(mef_t))[0]
+            for rfi_kind, pne, gains in (('lin', ['0,0'] * 3, [1, 2.5, None]), ('log', ['4,1', '4.5,0', '0,0'], None)):
+                d0 = make_sample([1024, 4096, 1000] if rfi_kind == 'lin' else [1024, 1024, 256], pne, gains, tag='f', nozero=c['nozero'])
+                d = FlowCal.transform.to_rfi(d0)
+                for sub in ([0], [1], [0, 1, 2], [2, 0]):
+                    one = dict(c)
+                    t = FlowCal.transform.to_mef(d, sub, [sc, sc, sc], [0, 1, 2])
+                    what = 'to_mef(curve fitted by fit_beads_autofluorescence to table %d, channels=%r) after to_rfi (%s amplifiers, %s)' % (
+                        c['table'], sub, rfi_kind, 'no event at zero' if c['nozero'] else 'events at both limits')
+                    if check_limits(res, what, 'mef-fitted', d, t, sorted(set(sub)), one, 3, allow_missing_low=c['nozero']):
+                        res.ok('mef-fitted', True)
+                    check_empty(res, what, 'mef-fitted', d, t, lambda x: FlowCal.transform.to_mef(x, sub, [sc, sc, sc], [0, 1, 2]), one)
+                    # gate then convert == convert then gate, as samples (values, ranges)
+                    g1 = FlowCal.transform.to_mef(FlowCal.gate.high_low(d, sub), sub, [sc, sc, sc], [0, 1, 2])
+                    g2 = FlowCal.gate.high_low(t, sub)
+                    if not (np.array_equal(np.asarray(g1), np.asarray(g2)) and [bits(x) for r in g1.range() for x in r] == [bits(x) for r in g2.range() for x in r]):
+                        res.violation('mef-fitted:order', '%s: gating before the conversion and after it give different samples (%d vs %d events; values bitwise equal: %s)' % (
+                            what, g1.shape[0], g2.shape[0], g1.shape == g2.shape and bool(np.array_equal(np.asarray(g1), np.asarray(g2)))), one)
+            res.sample({'kind': k, 'bead_table': c['table'], 'no_zero_events': c['nozero']})
         elif k == 'transform':
             d = make_sample([1024, 4096, 256], ['0,0'] * 3)
             fn = FNS[c['fn']]
